@@ -371,6 +371,20 @@ fn check_api(sub: &str, lt: &str, rt: &str, st: &mut Stats) -> CaseResult {
                 (None, ImpOut::Ok(J::Null)) => true,
                 _ => false,
             };
+            // the comparison node assembled by hand (all offsets equal: the two operand nodes
+            // of `l OP l` are then equal as trees) must evaluate like the compiled text
+            if agrees {
+                let cop = match *text {
+                    "==" => CmpOp::Eq,
+                    "!=" => CmpOp::Ne,
+                    "<" => CmpOp::Lt,
+                    "<=" => CmpOp::Le,
+                    ">" => CmpOp::Gt,
+                    _ => CmpOp::Ge,
+                };
+                let tree = crate::refast::RefExpr::Cmp(cop, Box::new(crate::refast::RefExpr::field(at)), Box::new(crate::refast::RefExpr::field(bt)));
+                crate::imp::ast_route_agrees_with(sub, &tree, &expr, &doc, 0, 0, vec![], 0)?;
+            }
             if !agrees {
                 return Err(Failure::new(
                     sub,
